@@ -906,7 +906,8 @@ where
                         ))
                     }
                 } else if ident.ctxt.has_mark(self.unresolved_mark) {
-                    if ident.sym == "Array" {
+                    // (`Array<T>["length"]` is not the element type)
+                    if ident.sym == "Array" && is_numeric_index(index) {
                         type_params
                             .as_ref()
                             .and_then(|params| params.params.first())
@@ -1035,16 +1036,7 @@ where
                 }
             }
             TsType::TsArrayType(TsArrayType { elem_type, .. }) => {
-                if matches!(
-                    index,
-                    TsType::TsKeywordType(TsKeywordType {
-                        kind: TsKeywordTypeKind::TsNumberKeyword,
-                        ..
-                    }) | TsType::TsLitType(TsLitType {
-                        lit: TsLit::Number(..),
-                        ..
-                    })
-                ) {
+                if is_numeric_index(index) {
                     Some((**elem_type).clone())
                 } else {
                     None
@@ -1483,6 +1475,20 @@ fn contains_jsx(expr: &Expr) -> bool {
     let mut finder = Finder(false);
     expr.visit_with(&mut finder);
     finder.0
+}
+
+/// `T[number]`, `T[0]`
+fn is_numeric_index(index: &TsType) -> bool {
+    matches!(
+        index,
+        TsType::TsKeywordType(TsKeywordType {
+            kind: TsKeywordTypeKind::TsNumberKeyword,
+            ..
+        }) | TsType::TsLitType(TsLitType {
+            lit: TsLit::Number(..),
+            ..
+        })
+    )
 }
 
 fn strip_type_parens(mut ty: &TsType) -> &TsType {
